@@ -218,6 +218,20 @@ def model_length(model):
     return rest.split(" ")[2]
 
 
+def length_hypotheses(s):
+    """The hypotheses of C29_sm_length evaluated on a summary (plain Python arithmetic)."""
+    counts = [sum(f[3]) for f in s[5]]
+    S = 1
+    for i in s[6]:
+        S *= counts[i]
+    P = 1 if any(s[5][i][0] and s[5][i][1].s == "transition" for i in s[6]) else 0
+    T, cw = s[4], s[3]
+    if not (S > 0 and S + P <= T and cw == (T - P + S - 1) // S):
+        return False
+    prim = [i for i, f in enumerate(s[5]) if not f[0]]
+    return cw <= 1 or (bool(prim) and s[6].count(prim[0]) == 1)
+
+
 def model_ignored(model):
     return model[model.rindex("(") + 1:-1].split()
 
@@ -455,8 +469,8 @@ def run_program(ctx, program, nseeds, limit, seeds=None):
         cls = classify_real(blk2, out)
         r["runs"].append(cls)
         if out[0] != "ok":
-            if i == 0 and not cls.startswith("timeout"):
-                break          # deterministic refusal / crash: the other seeds add nothing
+            if i == 0 or cls.startswith("timeout"):
+                break          # deterministic refusal / crash, or a search that does not end: the other seeds add nothing
             continue
         if ds is not None:
             for sig, what, smp in judge(program, ds, out[1]):
@@ -531,18 +545,14 @@ def run(ctx, res):
         if model.startswith("accept"):
             ign = model_ignored(model)
             stats["accepted-with-user-constraints"] += bool(ign)
-            # hypotheses of C29_sm_length on a plain CrossBlock: single crossing whose first
-            # non-derived design factor is crossed (or crossing weight 1) -> p_length = trials
+            # instances of C29_sm_length: the arithmetic hypotheses are read off the summary of the real block
             s = r["summary"]
-            if sh == "CrossBlock":
-                prim = [i for i, f in enumerate(s[5]) if not f[0]]
-                hyp = s[3] <= 1 or (prim and prim[0] in s[6])
-                if hyp and "T_doc" in r and r["T_doc"] == s[4]:
-                    stats["length-theorem-hypotheses-hold"] += 1
-                    okl = model_length(model) == str(s[4])
-                    res.layer("length-theorem-instance", okl)
-                    if not okl:
-                        corr_bad.append(("length-theorem-instance", p, {"model": model[:200], "trials": s[4]}))
+            if length_hypotheses(s):
+                stats["length-theorem-hypotheses-hold"] += 1
+                okl = model_length(model) == str(s[4])
+                res.layer("length-theorem-instance", okl)
+                if not okl:
+                    corr_bad.append(("length-theorem-instance", p, {"model": model[:200], "trials": s[4]}))
         for sig, what, detail in r.get("found", []):
             found.append((sig, what, detail, p))
         if r["tag"].startswith("hand:") or (model.startswith("accept") and any(c.startswith("ok") for c in r["runs"]) and r.get("found")):
